@@ -373,6 +373,7 @@ def run(rep, facts, tier):
                       'check_entity\'s result is not (unprotected OR permitted): %s' % term_str(v)[:140], ce.where(bb, si))
 
     rule_18_5(rep, fx)
+    rule_18_6(rep, fx)
 
 
 # what may be done with a zoned timestamp (chrono::DateTime<FixedOffset>) read from a permissions document: only operations that keep the instant
@@ -433,3 +434,25 @@ def rule_18_5(rep, fx):
                       'Grant::parse_time applies %s to the zoned timestamp: the zone offset is dropped and the wall-clock reading is taken as UTC, so not_before/not_after '
                       'move by the offset and a grant is honoured or refused at instants where the signed document says the opposite' % r, x.where(bb))
     rep.floor('R18.5', n, 1, 'uses of the zoned timestamp in Grant::parse_time')
+
+
+def rule_18_6(rep, fx):
+    rep.rule('R18.6', 'the grant applied is the one of the subject: DistinguishedName::matches is whole-name equality (one PartialEq::eq of the two names, nothing element-wise), and '
+                      'find_grant selects by it')
+    b = fx.find('security::certificate::DistinguishedName::matches')
+    rep.analysed(b)
+    og = Origins(b)
+    rets = b.return_blocks()
+    rv = og.of_local(0, rets[0], 'term') if rets else ('unknown',)
+    calls = [callee_res(t) for _bb, t in b.calls()]
+
+    def whole(x, p):
+        return x == ('param', p) or x == ('field', '0', ('param', p))
+    ok = rv[0] == 'call' and rv[1].endswith('::eq') and len(rv[2]) == 2 and ((whole(rv[2][0], 1) and whole(rv[2][1], 2)) or (whole(rv[2][0], 2) and whole(rv[2][1], 1))) and \
+        len(calls) == 1 and 'PartialEq' in calls[0] and not fx.closures_of(b)
+    rep.check(ok, 'R18.6', 'DistinguishedName::matches/equality', 'returns self.0 == other.0',
+              'DistinguishedName::matches is not equality of the two whole names (%s; calls %s): a certificate subject that merely contains, or is contained in, a granted subject is given '
+              'that subject\'s grant' % (term_str(rv)[:80], [c.rsplit('::', 1)[-1] for c in calls][:6]), b.where())
+    users = sorted(set(x.key for x, _bb, _t in fx.callers_of('DistinguishedName::matches')))
+    rep.check(any('find_grant' in u for u in users), 'R18.6', 'find_grant/uses-matches', 'find_grant compares subjects with DistinguishedName::matches',
+              'find_grant no longer selects the grant through DistinguishedName::matches (callers: %s)' % users, b.where())
